@@ -50,7 +50,7 @@ def dump(s: Any, hierarchy_only: bool) -> Dict[str, Any]:
     return d
 
 
-def check_files(files: Dict[str, str], cyclic: bool, stale_possible: bool, star_on_cycle: bool, reexport_on_cycle: bool = False) -> Tuple[List[Tuple[str, str]], Dict[str, Any]]:
+def check_files(files: Dict[str, str], cyclic: bool, stale_possible: bool, star_on_cycle: bool, reexport_on_cycle: bool = False, fallback_star: bool = False) -> Tuple[List[Tuple[str, str]], Dict[str, Any]]:
     mods = files_to_mods(files)
     fullnames = [(m[1] + '.' if m[1] else '') + m[0] for m in mods]
     if len(set(fullnames)) != len(fullnames):
@@ -82,10 +82,14 @@ def check_files(files: Dict[str, str], cyclic: bool, stale_possible: bool, star_
             keys = sorted(k for k in set(d) | set(ref) if d.get(k) != ref.get(k))
             k0 = keys[0]
             sig = 'order-dependent'
+            if fallback_star:
+                sig = rexproj.FALLBACK_AFTER_STAR
             hk = [k for k in keys if _is_class_hierarchy_diff(ref.get(k), d.get(k), cyclic)]
             # members of a class whose base is resolved or not (e.g. an assignment to an inherited method name is a new
             # class variable only when the base is unknown) follow from the same hierarchy difference
-            if stale_possible and hk and all(k in hk or any(str(k).startswith(str(h) + '.') for h in hk) for k in keys):
+            if fallback_star:
+                pass
+            elif stale_possible and hk and all(k in hk or any(str(k).startswith(str(h) + '.') for h in hk) for k in keys):
                 sig = STALE
             elif reexport_on_cycle:
                 sig = 'reexport-from-module-on-import-cycle'
@@ -107,7 +111,7 @@ def _is_class_hierarchy_diff(a: Any, b: Any, cyclic: bool) -> bool:
     return a[1] == b[1] or {a[1], b[1]} == {'DocumentableKind.CLASS', 'DocumentableKind.EXCEPTION'}
 
 
-def project_case(proj: Dict[str, Any]) -> Tuple[Dict[str, str], bool, bool, bool, bool]:
+def project_case(proj: Dict[str, Any]) -> Tuple[Dict[str, str], bool, bool, bool, bool, bool]:
     files, meta = rexproj.to_files(proj)
     cyclic = bool(proj['extra'].get('cycle'))
     stale = any(rexproj.exporter_of(proj, c['obj']) and c['how'] in ('from-impl', 'both') for c in meta['checks'])
@@ -132,7 +136,7 @@ def project_case(proj: Dict[str, Any]) -> Tuple[Dict[str, str], bool, bool, bool
                 on_cycle.add(im['mod'])
                 grew = True
     reexport_on_cycle = cyclic and any(e['from'] in on_cycle for e in proj['exports'])
-    return files, cyclic, stale, star_on_cycle, reexport_on_cycle
+    return files, cyclic, stale, star_on_cycle, reexport_on_cycle, bool(rexproj.fallback_after_star(proj))
 
 
 def real_cases() -> List[Dict[str, Any]]:
@@ -222,8 +226,8 @@ def work(item: Dict[str, Any]) -> Acc:
     acc = Acc()
     if item['kind'] == 'gen':
         def body(proj):
-            files, cyclic, stale, soc, roc = project_case(proj)
-            d, info = check_files(files, cyclic, stale, soc, roc)
+            files, cyclic, stale, soc, roc, fbs = project_case(proj)
+            d, info = check_files(files, cyclic, stale, soc, roc, fbs)
             acc.case(key=proj, nontrivial=info['orders_run'] >= 2,
                      sample={'exports': proj['exports'], 'extra': proj['extra'], 'orders_run': info['orders_run'], 'orders_total': info['orders_total']},
                      classes=['orders-exhaustive' if info['exhaustive'] else 'orders-sampled', 'cyclic' if cyclic else 'acyclic'] +
@@ -261,5 +265,5 @@ def replay(case: Dict[str, Any]) -> List[Tuple[str, str]]:
         return check_files(case['files'], False, False, False)[0]
     if case.get('kind') == 'real':
         return check_files(case['files'], 'cyclic' in case['name'], False, False)[0]
-    files, cyclic, stale, soc, roc = project_case(case)
-    return check_files(files, cyclic, stale, soc, roc)[0]
+    files, cyclic, stale, soc, roc, fbs = project_case(case)
+    return check_files(files, cyclic, stale, soc, roc, fbs)[0]
